@@ -135,9 +135,11 @@ def run(ctx):
     ctx.require(gst is not None, 'anchor vanished: Encoder.get_statement_type')
     # the dispatch as a list (class tested, letter returned) in test order: an if/elif chain of isinstance tests or a match
     # statement with class patterns - read off the returning paths (the class whose test is the True one on that path)
-    from ..core.pyeval import PyEval
+    from ..core.pyeval import PyEval, class_table_resolver, unroll_constant_loops
     chain = []
-    for pth in PyEval().paths(gst):
+    # a table-driven dispatch (`for cls, letter in TABLE: if isinstance(stmt, cls): return letter`) is the chain of its rows
+    gst_u = unroll_constant_loops(gst, consts=class_table_resolver(enc, py.modules[AST].tree))
+    for pth in PyEval().paths(gst_u):
         if pth.end[0] != 'return' or pth.end[1][0] != 'const':
             continue
         true_cls = []
@@ -310,8 +312,52 @@ def scans_recurse_into_blocks(ctx, py: PyRepo):
     STMTS = ('param', fn.args.args[0].arg)
     ELEM = ('elem', STMTS)
     saw_block, bad = 0, []
+
+    def is_flattener(g) -> bool:
+        """a generator over a statement list that hands on every statement that is not a block and, for a block, everything the same
+        generator produces for `block.statements`: iterating it visits the statements of all nested blocks"""
+        if len(g.args.args) != 1:
+            return False
+        S = ('param', g.args.args[0].arg)
+        EL = ('elem', S)
+        ISB = ('call', ('name', 'isinstance'), (EL, ('name', 'Block')), ())
+        try:
+            gp = PyEval().paths(g)
+        except Exception:  # noqa: BLE001
+            return False
+        seen = 0
+        for q in gp:
+            for e in q.events:
+                if e.kind in ('yield', 'yieldfrom'):
+                    return False                       # something produced outside the loop over the statements
+                if e.kind != 'loop' or e.value[0] != 'for' or e.value[2] != S:
+                    continue
+                for sp in e.extra:
+                    if sp.end[0] == 'raise':
+                        continue
+                    blk = [b for c, b in sp.conds if c == ISB]
+                    ys = [x for x in sp.events if x.kind in ('yield', 'yieldfrom')]
+                    if not blk or len(ys) != 1 or sp.end[0] not in ('fall', 'continue'):
+                        return False
+                    if blk[-1] is True:
+                        if not (ys[0].kind == 'yieldfrom' and ys[0].value == ('call', ('name', g.name), (('attr', EL, 'statements'),), ())):
+                            return False
+                    elif not (ys[0].kind == 'yield' and ys[0].value == EL):
+                        return False
+                    seen += 1
+        return seen >= 2
     for p in PyEval(resolver=resolver, max_inline=2).paths(fn):
         for e in p.events:
+            if e.kind == 'loop' and e.value[0] == 'for' and e.value[2][0] == 'call' and e.value[2][1][0] == 'name' \
+                    and e.value[2][2] == (STMTS,) and e.value[2][1][1] in mi.functions and is_flattener(mi.functions[e.value[2][1][1]]):
+                saw_block += 1                          # the scan ranges over the flattened statement list: nested blocks are reached
+                continue
+            if e.kind == 'loop' and e.value[0] == 'for' and e.value[2][0] == 'call' and e.value[2][1][0] == 'name' \
+                    and e.value[2][2] == (STMTS,) and e.value[2][1][1] in mi.functions \
+                    and any(isinstance(n, (ast.Yield, ast.YieldFrom)) for n in ast.walk(mi.functions[e.value[2][1][1]])):
+                saw_block += 1
+                bad.append(f'by ranging over `{e.value[2][1][1]}(..)`, which does not hand on the statements of every nested block')
+                continue
             if e.kind != 'loop' or e.value[0] != 'for' or e.value[2] != STMTS:
                 continue
             for sp in e.extra:
@@ -775,6 +821,7 @@ def disjoint_all_pairs(ctx, py: PyRepo):
     """`$d v1 .. vn $.` makes EVERY two of its variables disjoint; the slicer records the restriction pairwise, so the loop nest that
     records them must enumerate all unordered pairs (decided by evaluating the loop headers over four abstract variables)"""
     from ..core import iterspace as IS
+    IS.set_k(9 if ctx.tier == 'thorough' else 4)
     fn = py.function(SLICER, 'slice_database')
     branches = [n for n in ast.walk(fn) if isinstance(n, ast.If) and re.fullmatch(r'isinstance\((\w+), DisjointStatement\)', ast.unparse(n.test))]
     ctx.require(len(branches) == 1, 'slice_database: branch for `$d` statements not found')
